@@ -118,6 +118,43 @@ func producedFields(fb *FuncBody, t *types.Named) (map[string]ast.Expr, *ast.Com
 		return true
 	})
 	if lit == nil {
+		// struct-copy form: `n := *recv` writes every field with the receiver's own value (aliases for reference types)
+		if fb.Decl != nil && fb.Decl.Recv != nil && len(fb.Decl.Recv.List[0].Names) > 0 {
+			recv, _ := info.Defs[fb.Decl.Recv.List[0].Names[0]].(*types.Var)
+			inspectBody(fb.Body, func(nd ast.Node) bool {
+				as, ok := nd.(*ast.AssignStmt)
+				if !ok || len(as.Lhs) != 1 || len(as.Rhs) != 1 || holder != nil {
+					return true
+				}
+				if st, ok := ast.Unparen(as.Rhs[0]).(*ast.StarExpr); ok && recv != nil && varOf(info, st.X) == recv {
+					holder = varOf(info, as.Lhs[0])
+					if stt, ok := t.Underlying().(*types.Struct); ok {
+						for i := 0; i < stt.NumFields(); i++ {
+							fields[stt.Field(i).Name()] = &ast.SelectorExpr{X: st.X, Sel: ast.NewIdent(stt.Field(i).Name())}
+						}
+					}
+					lit = &ast.CompositeLit{Lbrace: as.Pos(), Rbrace: as.End()}
+				}
+				return true
+			})
+			if holder != nil {
+				inspectBody(fb.Body, func(nd ast.Node) bool {
+					if as, ok := nd.(*ast.AssignStmt); ok {
+						for i, l := range as.Lhs {
+							if sel, ok := ast.Unparen(l).(*ast.SelectorExpr); ok && varOf(info, sel.X) == holder {
+								if i < len(as.Rhs) {
+									fields[sel.Sel.Name] = as.Rhs[i]
+								} else {
+									fields[sel.Sel.Name] = as.Rhs[0]
+								}
+							}
+						}
+					}
+					return true
+				})
+				return fields, lit
+			}
+		}
 		return fields, nil
 	}
 	// variable holding the literal
